@@ -50,6 +50,15 @@ var guardConvs = map[string]bool{"int": true, "int8": true, "int16": true, "int3
 type guardX struct {
 	fset *token.FileSet
 	recv string
+	// qualify: receiver fields are named "recv.field" (functions whose results or locals share a name with a field)
+	qualify bool
+}
+
+func (g *guardX) field(name string) string {
+	if g.qualify {
+		return g.recv + "." + name
+	}
+	return name
 }
 
 func (g *guardX) src(n ast.Node) string {
@@ -80,7 +89,7 @@ func (g *guardX) expr(e ast.Expr) string {
 				return ".lit " + v
 			}
 			if id.Name == g.recv && g.recv != "" {
-				return ".var " + leanStr(x.Sel.Name) // field of the receiver
+				return ".var " + leanStr(g.field(x.Sel.Name)) // field of the receiver
 			}
 		}
 		return ".opaque " + leanStr(g.src(e))
@@ -114,7 +123,7 @@ func (g *guardX) expr(e ast.Expr) string {
 func (g *guardX) lenArg(e ast.Expr) string {
 	if s, ok := e.(*ast.SelectorExpr); ok {
 		if id, ok := s.X.(*ast.Ident); ok && id.Name == g.recv && g.recv != "" {
-			return s.Sel.Name
+			return g.field(s.Sel.Name)
 		}
 	}
 	return g.src(e)
@@ -137,7 +146,13 @@ func (g *guardX) stmt(s ast.Stmt, guard string, out *[]string) {
 	switch x := s.(type) {
 	case *ast.AssignStmt:
 		if len(x.Lhs) == 1 && len(x.Rhs) == 1 {
-			if id, ok := x.Lhs[0].(*ast.Ident); ok {
+			lhs := x.Lhs[0]
+			if sel, ok := lhs.(*ast.SelectorExpr); ok && g.qualify { // a field of the receiver
+				if id, ok := sel.X.(*ast.Ident); ok && id.Name == g.recv && g.recv != "" {
+					lhs = &ast.Ident{Name: g.field(sel.Sel.Name)}
+				}
+			}
+			if id, ok := lhs.(*ast.Ident); ok {
 				op := x.Tok.String()
 				if op == ":=" {
 					op = "="
@@ -298,6 +313,44 @@ func extractGuards(repo string) (string, error) {
 				b.WriteString("\n  " + s)
 			}
 			b.WriteString("]\n\n")
+		}
+	}
+	// utils/reader.go: the exact-length reader handed out by the decoders (field names qualified: `e.n` vs the result `n`)
+	{
+		fset := token.NewFileSet()
+		af, err := parser.ParseFile(fset, filepath.Join(repo, "utils/reader.go"), nil, 0)
+		if err != nil {
+			return "", err
+		}
+		found := false
+		for _, d := range af.Decls {
+			fd, ok := d.(*ast.FuncDecl)
+			if !ok || fd.Body == nil || fd.Name.Name != "Read" || fd.Recv == nil || len(fd.Recv.List) != 1 {
+				continue
+			}
+			t := fd.Recv.List[0].Type
+			if st, ok := t.(*ast.StarExpr); ok {
+				t = st.X
+			}
+			if id, ok := t.(*ast.Ident); !ok || id.Name != "exactReader" || len(fd.Recv.List[0].Names) != 1 {
+				continue
+			}
+			g := &guardX{fset: fset, recv: fd.Recv.List[0].Names[0].Name, qualify: true}
+			var out []string
+			g.stmts(fd.Body.List, ".lit 1", &out)
+			names = append(names, "exactReader_Read")
+			b.WriteString("/-- utils/reader.go: exactReader.Read -/\ndef exactReader_Read : List GS := [")
+			for i, s := range out {
+				if i > 0 {
+					b.WriteString(",")
+				}
+				b.WriteString("\n  " + s)
+			}
+			b.WriteString("]\n\n")
+			found = true
+		}
+		if !found {
+			b.WriteString("-- UNSUPPORTED: utils/reader.go has no method exactReader.Read\n\n")
 		}
 	}
 	b.WriteString("def all : List (String × List GS) := [")
